@@ -52,6 +52,20 @@ class Report:
         self.status_counts = {}
         self.extra = {}
 
+    def validate_standin(self, n_traj=6):
+        """Translator validation in every run: the stand-in vs the real torch build on operation scenarios and optimizer trajectories."""
+        from . import selftest
+
+        try:
+            n_ops, n_tr, bad = selftest.compare(n_traj, self.seed)
+        except Exception as e:
+            self.harness_errors.append(dict(job="stand-in validation", why=repr(e)[:500]))
+            return
+        self.validated_traces += n_ops + n_tr
+        self.extra["standin_validation"] = dict(operation_scenarios=n_ops, optimizer_trajectories=n_tr, mismatches=len(bad))
+        for b in bad[:3]:
+            self.harness_errors.append(dict(job="stand-in validation", why=b))
+
     # ---- absorbing explorer output
     def absorb(self, section, results, sample_every=0):
         sec = self.sections.setdefault(section, dict(jobs=0, paths=0, obligations=0, queries=0, unsat=0, sat=0, unknown=0, solver_s=0.0,
